@@ -204,7 +204,7 @@ class PythonRegexInLoopAnalyzer:
 
     def _get_loop_type(self, node: ast.AST) -> str | None:
         """Get the loop type if node is a loop, else None."""
-        if isinstance(node, ast.For):
+        if isinstance(node, (ast.For, ast.AsyncFor)):
             return "for"
         if isinstance(node, ast.While):
             return "while"
